@@ -21,6 +21,9 @@ def dispatch(prop: str):
     if prop == "C16":
         from .engines import cli
         return cli.check
+    if prop == "C17":
+        from .engines import imports
+        return imports.check
     raise SystemExit(f"no check registered for {prop}")
 
 
